@@ -867,6 +867,38 @@ open CvssVerif CvssVerif.GoRt CvssVerif.V3
             else none
   else none
 
+-- @def Base_BaseMetrics
+@[gdec] def Base_BaseMetrics (o : Obj3) : Option (Obj3 × Bool) :=
+  some (o, true)
+
+-- @def Base_BaseMetrics_nil
+@[gdec] def Base_BaseMetrics_nil  : Option (Option Obj3 × Bool) :=
+  some (none, false)
+
+-- @def Temporal_BaseMetrics
+@[gdec] def Temporal_BaseMetrics (o : Obj3) : Option (Obj3 × Bool) :=
+  some (o, true)
+
+-- @def Temporal_BaseMetrics_nil
+@[gdec] def Temporal_BaseMetrics_nil  : Option (Option Obj3 × Bool) :=
+  some (none, false)
+
+-- @def Environmental_BaseMetrics
+@[gdec] def Environmental_BaseMetrics (o : Obj3) : Option (Obj3 × Bool) :=
+  some (o, true)
+
+-- @def Environmental_BaseMetrics_nil
+@[gdec] def Environmental_BaseMetrics_nil  : Option (Option Obj3 × Bool) :=
+  some (none, false)
+
+-- @def Environmental_TemporalMetrics
+@[gdec] def Environmental_TemporalMetrics (o : Obj3) : Option (Obj3 × Bool) :=
+  some (o, true)
+
+-- @def Environmental_TemporalMetrics_nil
+@[gdec] def Environmental_TemporalMetrics_nil  : Option (Option Obj3 × Bool) :=
+  some (none, false)
+
 -- @def markSites
 /-- every `x.names[k] = true` of the source: the struct (level) whose map is written and the metric name k is known to be
     at that point; each must be the name of a metric of that level (proved in Proofs/Decoders.lean) -/
@@ -1591,6 +1623,30 @@ open CvssVerif CvssVerif.GoRt CvssVerif.V2
                 some (some o, (false, (some Err.misordered)))
               else
                 some (some o, (true, (none : Option Err)))
+
+-- @def Temporal_BaseMetrics
+@[gdec] def Temporal_BaseMetrics (o : Obj2) : Option (Obj2 × Bool) :=
+  some (o, true)
+
+-- @def Temporal_BaseMetrics_nil
+@[gdec] def Temporal_BaseMetrics_nil  : Option (Option Obj2 × Bool) :=
+  some (none, false)
+
+-- @def Environmental_BaseMetrics
+@[gdec] def Environmental_BaseMetrics (o : Obj2) : Option (Obj2 × Bool) :=
+  some (o, true)
+
+-- @def Environmental_BaseMetrics_nil
+@[gdec] def Environmental_BaseMetrics_nil  : Option (Option Obj2 × Bool) :=
+  some (none, false)
+
+-- @def Environmental_TemporalMetrics
+@[gdec] def Environmental_TemporalMetrics (o : Obj2) : Option (Obj2 × Bool) :=
+  some (o, true)
+
+-- @def Environmental_TemporalMetrics_nil
+@[gdec] def Environmental_TemporalMetrics_nil  : Option (Option Obj2 × Bool) :=
+  some (none, false)
 
 -- @def markSites
 /-- every `x.names[k] = true` of the source: the struct (level) whose map is written and the metric name k is known to be
